@@ -467,7 +467,9 @@ class Consumer(object):
 
         # Clear and possibly callback our start() Deferred
         self._start_d, d = None, self._start_d
-        if not d.called:
+        # (d is None when a shutdown() in progress, whose commit we just cancelled,
+        # has already completed the stop from inside this call)
+        if d is not None and not d.called:
             d.callback(self._last_processed_offset)
 
         # Return the offset of the message we last processed.
